@@ -69,6 +69,8 @@ ImageToTile(t, x, y) == <<AxisSlot(t.x, x)[1], AxisSlot(t.y, y)[1], AxisSlot(t.x
 
 \* ---------------------------------------------------------------- tile files and parity
 Parities == {"topdown", "bottomup"}          \* png / npy ... vs fits (get_format_vertical_parity_sign -1 / +1)
+\* The parity is that of the format the TILES are stored in (the pyramid's default format, which is what
+\* pio.write_image saves in) - not of whatever default format the input image object happens to carry.
 \* where display row r of a tile (0 = top) is stored in the tile's file
 FileRow(par, r) == IF par = "bottomup" THEN TS - 1 - r ELSE r
 \* a Python slice over a buffer axis of TS entries, as the sequence of indexes it addresses
